@@ -44,7 +44,7 @@ ASSUMPTIONS = [
     "`name/` + `name.py` pair makes the dotted name ambiguous; otherwise only membership and the dot-path formula are asserted",
     "order of the returned list is not asserted (get_component_dirs returns a set)",
 ]
-BOUNDS = {"quick": {"cases": 9600, "max_files": 18, "shards": 32}, "thorough": {"cases": 48000, "max_files": 28, "shards": 48}}
+BOUNDS = {"quick": {"cases": 9600, "max_files": 18, "shards": 32}, "thorough": {"cases": 200000, "max_files": 28, "shards": 96}}
 
 SUFFIXES = [".py", ".js", ".html", None]
 COMP_DIRS = ["comps", "components", "src/widgets", "_lib/ui", "src/other_comps"]
